@@ -211,10 +211,10 @@ int main(int argc, char** argv) {
   case N:       \
     run_scn<N>(scn, t0, ticks, unit); \
     break;
-      CASE(1) CASE(2) CASE(3) CASE(5) CASE(7) CASE(9) CASE(16) CASE(64)
-#ifdef EXTRA_MAXN
-      CASE(EXTRA_MAXN)
+#ifndef MAXN_LIST
+#define MAXN_LIST(X) X(1) X(2) X(3) X(5) X(7) X(9) X(16) X(64)
 #endif
+      MAXN_LIST(CASE)
       default:
         std::printf("SKIP %d\n", scn);
     }
